@@ -274,6 +274,29 @@ def ct(e, frame):
     return ast.unparse(subst(e, FrameEnv(frame)))
 
 
+
+def init_loop_body(g, head):
+    """the body of the loop `for x in <registry>` is, on every path, exactly one call x.initialize(<environment of the system>) and nothing else
+    that acts: decided on the supergraph, so a one-line helper `self._initialize_asset(x)` is seen through"""
+    v = head.ast.target.id
+    starts = [m for l, m in g.succ[head.id] if l == 'T']
+    region = g.reach(starts, avoid={head.id}, follow=lambda l: l != 'exc')
+    if g.exit in region or g.raise_exit in region:
+        return False                      # the body can leave the loop
+    inits = 0
+    for nid in region:
+        n = g.nodes[nid]
+        if n.kind in ('cond', 'for', 'while'):
+            return False                  # some assets could be skipped
+        for cl in calls_at(g, n):
+            if call_attr(cl) != 'initialize':
+                return False
+            ok = ct(cl.func.value, n.frame) == v and len(cl.args) == 1 and not cl.keywords and ct(cl.args[0], n.frame) in ('self._env', 'self.env')
+            if not ok:
+                return False
+            inits += 1
+    return inits == 1
+
 def add_asset(ctx, o):
     P = ctx.P
     S = P.cls('System')
@@ -354,9 +377,14 @@ def add_asset(ctx, o):
     o.sample({'cases': 'active-system x already-registered x simulation-initialised (8 combinations)', 'graph_nodes': len(g.nodes)})
 
 
-def _in_assets_loop(n, recv):
-    return any(isinstance(l, ast.For) and ct(l.iter, n.frame) == 'self._assets' and isinstance(l.target, ast.Name) and l.target.id == recv
-               for l in ast.walk(n.frame.func))
+def _in_assets_loop(g, n, recv):
+    """node n lies in the body of a loop `for <recv> in self._assets` of the supergraph (also inside a helper called from that body)"""
+    for h in g.nodes.values():
+        if h.kind == 'for' and isinstance(h.ast.target, ast.Name) and h.ast.target.id == recv and ct(h.ast.iter, h.frame) == 'self._assets':
+            region = g.reach([m for l, m in g.succ[h.id] if l == 'T'], avoid={h.id}, follow=lambda l: l != 'exc')
+            if n.id in region:
+                return True
+    return False
 
 
 def simulate(ctx, o):
@@ -385,7 +413,7 @@ def simulate(ctx, o):
                 arg_ok = len(cl.args) == 1 and ct(cl.args[0], n.frame) in ('self._env', 'self.env')
                 if recv in ('self.resource_manager', 'self._env.resource_manager', 'self.env.resource_manager', 'self._env._resource_manager'):
                     st = st.with_flag('rm-init' if arg_ok and 'rm-init' not in st.flags else 'rm-init-wrong')
-                elif not _in_assets_loop(n, recv_raw):
+                elif not _in_assets_loop(g, n, recv):
                     st = st.with_flag('stray-initialize')
                 if 'ran' in st.flags:
                     st = st.with_flag('init-after-run')
@@ -401,9 +429,7 @@ def simulate(ctx, o):
         a = n.ast
         if n.kind == 'for' and ct(a.iter, n.frame) == 'self._assets' and isinstance(a.target, ast.Name) and 'assets-init' not in st.flags:
             # the loop initialises every registered asset (assets registered by an initialize() are appended and reached by the same loop)
-            body_ok = len(a.body) == 1 and isinstance(a.body[0], ast.Expr) and isinstance(a.body[0].value, ast.Call) and \
-                ast.unparse(a.body[0].value.func) == f'{a.target.id}.initialize' and len(a.body[0].value.args) == 1 and not a.body[0].value.keywords and \
-                ct(a.body[0].value.args[0], n.frame) in ('self._env', 'self.env') and not a.orelse
+            body_ok = init_loop_body(g, n) and not a.orelse
             st = st.with_flag('assets-init' if body_ok else 'assets-init-wrong')
             if 'rm-init' not in st.flags:
                 st = st.with_flag('assets-before-rm')
@@ -676,10 +702,12 @@ def system_identity(ctx, o):
             names = inv.covered(P, {a_.split('.')[1] for a_ in allowed})
             if not (s.cls is S and s.func is not None and s.func.name in names):
                 o.fail(P, s.ctx, s.stmt, f'{attr} is written outside {sorted(allowed)}', file=s.mod.path, line=s.line)
+    reg_owners = inv.covered(P, {'add_asset'})       # add_asset and private helpers only it calls (`active_system._register(asset)`)
     for s in inv.attr_uses(P, '_assets'):
         role = s.extra['role']
         o.count()
-        if role[0] == 'method' and role[1] in ('append', 'insert', 'extend', 'remove', 'pop', 'clear', 'sort', 'reverse') and s.ctx != 'System.add_asset':
+        if role[0] == 'method' and role[1] in ('append', 'insert', 'extend', 'remove', 'pop', 'clear', 'sort', 'reverse') \
+                and not (s.cls is S and s.func is not None and s.func.name in reg_owners):
             o.fail(P, s.ctx, s.stmt, 'the list of registered assets is changed outside System.add_asset', file=s.mod.path, line=s.line)
         if role[0] in ('subscript-store', 'subscript-del', 'del'):
             o.fail(P, s.ctx, s.stmt, 'the list of registered assets is changed outside System.add_asset', file=s.mod.path, line=s.line)
